@@ -385,12 +385,10 @@ LinePosition SyntaxTree::computePosition(unsigned int offset) const
 
 unsigned int SyntaxTree::searchForLineno(unsigned int offset) const
 {
-    auto it = std::lower_bound(P->startOfLineOffsets_.begin(),
+    // The line of an offset is the last one that starts at or before it.
+    auto it = std::upper_bound(P->startOfLineOffsets_.begin(),
                                P->startOfLineOffsets_.end(),
                                offset);
-    if (it == P->startOfLineOffsets_.end())
-        return P->startOfLineOffsets_.size() - 1;
-
     if (it != P->startOfLineOffsets_.begin())
         --it;
     return std::distance(P->startOfLineOffsets_.begin(), it);
